@@ -114,9 +114,47 @@ Proof.
   repeat match type of F with
          | ?A -> _ => let H := fresh in assert (H : A) by assumption; specialize (F H); clear H
          end.
-  destruct (F plans P) as [->|[p [rest [-> L]]]].
+  destruct (F plans Hn Hav Hfree P) as [->|[p [rest [-> L]]]].
   - discriminate.
   - intro E. injection E as <- _. simpl. split; [reflexivity|exact L].
+Qed.
+
+(* the same with a NUMA topology, the origin's NUMA node [nu] visited first (as
+   GetCPUPlans does since /repo 3d8e6c0): a granted realloc stays on the origin's
+   cores and on node [nu], unless node [nu] itself yields no plan (its memory
+   cannot hold the new request): then the answer comes from elsewhere *)
+Theorem realloc_keeps_cores_numa sortf (info : node_info) (base maxshare : Z) (origin : wres) (raw nr : wreq)
+    (nu : string) (order : list string) (fuel : nat) (new d : wres) :
+  0 < base ->
+  rq_keep raw = true ->
+  nu <> EmptyString ->
+  wr_cpumap origin <> [] -> NoDup (keys (wr_cpumap origin)) ->
+  (forall c v, In (c, v) (wr_cpumap origin) -> v = base) ->
+  let info' := put_back info origin in
+  let avail := get_available_nofloat info' in
+  let numamap := numa_cpu_map (nr_numa (ni_cap info)) (nr_cpumap avail) nu in
+  let numamem := Z.min (Types.lookup 0 (nr_numamem avail) nu) (nr_mem avail) in
+  NoDup (keys numamap) ->
+  (forall c, In c (keys (wr_cpumap origin)) -> lookup_opt numamap c = Some base) ->
+  wreq_validate (realloc_newreq origin raw) = inr nr ->
+  pieces_request base (rq_cpu_req nr) = base * Z.of_nat (List.length (wr_cpumap origin)) ->
+  calculate_realloc_g sortf info base maxshare origin raw (nu :: order) fuel = Ok (inr (new, d)) ->
+  (wr_numanode new = nu /\ wr_numamem new = [(nu, rq_mem_req nr)] /\
+   forall k, lookup_opt (wr_cpumap new) k = lookup_opt (wr_cpumap origin) k)
+  \/ do_get_cpu_plans_g sortf (wr_cpumap origin) numamap numamem base maxshare (rq_cpu_req nr) (rq_mem_req nr) fuel = Ok [].
+Proof.
+  intros Hb Hk Hnu Hne Hnd Hbase info' avail numamap numamem Hav Hfree V Hreq.
+  unfold calculate_realloc_g. rewrite V.
+  assert (B : realloc_bind origin raw = true).
+  { unfold realloc_bind. rewrite Hk. destruct (wr_cpumap origin); [congruence|reflexivity]. }
+  rewrite B. fold info'.
+  destruct (get_cpu_plans_g sortf info' (wr_cpumap origin) base maxshare nr (nu :: order) fuel) as [plans| | |] eqn:P;
+    cbn [bind]; try discriminate.
+  destruct (first_plan_is_origin_numa sortf base maxshare info' (wr_cpumap origin) nr fuel Hb Hne Hnd Hbase Hreq nu order plans Hav Hfree P)
+    as [[p [rest [-> L]]]|E].
+  - intro H. injection H as <- _. left. cbn [wr_numanode wr_numamem wr_cpumap].
+    split; [reflexivity|]. split; [|exact L]. destruct nu; [congruence|reflexivity].
+  - intros _. right. exact E.
 Qed.
 
 (* the hypotheses are satisfiable: 4 whole cores, a workload on cores 2 and 3, +50 memory *)
